@@ -60,6 +60,13 @@ CHECKS = {
  "C19": dict(technique="runtime monitoring: decoder specification (reference model) on exhaustively enumerated strings + constant-true oracle over enumerated scheme encodings",
    text="Exploration. The character-reference decoder is compared (value, consumed length) with a 40-line specification on every string over a 14-symbol alphabet up to length 6 (7) and on boundary values around 0x1000FF; every per-byte encoding of data: and java (8^5, 8^4) and samples for the longer schemes, with junk prefixes, NUL/LF interleaving and case masks, must satisfy the URL predicate and be detected inside every live URL attribute under 4 quotings.",
    note="Decoder specification written from the property text.", ref="6 C19"),
+
+ "C06": dict(technique="runtime monitoring: differential execution against an independently written reference model of the SQLi pipeline, six modes per input",
+   text="Exploration. Every generated input (bounded-exhaustive atom sequences, truncations, mutation, novelty-guided growth, attack grammar, every keyword-table entry in sentence frames) is run through the real pipeline via the accessors and through refsql (an independently written executable specification: class switch, cursor scanning, fresh state per pass) in all six modes; token streams incl. scan offsets and counters, folded sequences and fold counters, fingerprints, blacklist/whitelist decisions and the IsSQLi cascade must be equal.",
+   note="refsql is my statement of the algorithm with the spec decisions of DESIGN.md §5; it reads the live keyword table. Agreement on the explored inputs only.", ref="6 C06"),
+ "C07": dict(technique="runtime monitoring: differential execution against an independently written reference model of the HTML5 tokenizer and XSS classifier, five contexts per input",
+   text="Exploration. Every generated HTML input (incl. every delimited construct with decoy-terminator bodies) is tokenised by the real state machine (accessor) and by refhtml (explicit state enum, first-terminator helpers) from all five start contexts; (type, offset, length) streams, per-context verdicts, IsXSS vs the OR, and the tag/attribute/URL predicates and decoder on every token text must be equal.",
+   note="refhtml is my statement of the algorithm with the spec decisions of DESIGN.md §5; it reads the live black lists.", ref="6 C07"),
 }
 
 NOT_YET = {}
